@@ -74,6 +74,14 @@ def gen_case(rng, tier):
 
 # ----------------------------------------------------------------------------- model side
 
+class ModelUnavailable(Exception):
+    pass
+
+
+class _Done(Exception):
+    pass
+
+
 def model_report(case, failing, world, ctlp):
     b = case['budget']
     txns = rp.expected_transactions(b, failing)
@@ -84,6 +92,10 @@ def model_report(case, failing, world, ctlp):
     text = b.get('rules_text')
     r = proc.run_func(world, lambda: rp.classify_with_engine(kind, text, csv_path, mode, txns, supp), {'net': 'down'}, ctl_parent=ctlp)
     if r.exit != 0 or r.result is None:
+        if '/src/tally/' in (r.err or ''):
+            # tally's own classification entry points (trusted here: C01/C02/C08/C09) raised for this budget's rows: there is
+            # no model to compare with.  The command is still required to produce a report (see execute).
+            raise ModelUnavailable((r.err.strip().split('\n') or [''])[-1][:300])
         raise proc.HarnessError('model classification failed: %s' % r.err[-1500:])
     cls = r.result
     merch = rp.merchants(txns, cls)
@@ -235,7 +247,16 @@ def execute(case, scratch):
     try:
         # ---- fault-free: the wiring clause
         util.restore(root, snap)
-        model = model_report(case, (), root, ctlp)
+        try:
+            model = model_report(case, (), root, ctlp)
+        except ModelUnavailable as e:
+            count['discarded.model_unavailable'] = 1
+            log.append(['model-unavailable', str(e)])
+            r = run_up('json', {})
+            if r.exit != 0 or parse_json_report(r.out) is None:
+                add('WIRE', 'no-report', 'none', 'fault-free `tally up --format json` exits %d: %s (classifying the written rows through '
+                    'tally\'s engine directly raises: %s)' % (r.exit, (r.err.strip().split('\n') or [''])[-1][:300], e), None)
+            raise _Done()
         vector('none', model)
         if not model['txns']:
             count['discarded.no_transactions'] = 1
@@ -288,7 +309,11 @@ def execute(case, scratch):
                         fh.write(snap[f['file']].replace(b' r', b' DECOY r'))
                 elif cwd == 'elsewhere':
                     os.makedirs(os.path.join(root, cwd), exist_ok=True)
-            model = model_report(case, failing, root, ctlp)
+            try:
+                model = model_report(case, failing, root, ctlp)
+            except ModelUnavailable:
+                count['discarded.model_unavailable'] = count.get('discarded.model_unavailable', 0) + 1
+                continue
             vector(f['kind'], model)
             fmt = 'json' if util.digest(f)[0] in '01234567' else 'html'
             r = run_up(fmt, reads, cwd)
@@ -325,6 +350,8 @@ def execute(case, scratch):
                 else:
                     for what, w in compare_html(model, data):
                         add('ISO', what, f['kind'], 'with source %s failing (%s): %s' % (failing, f['kind'], w), f)
+    except _Done:
+        pass
     finally:
         shutil.rmtree(scratch, ignore_errors=True)
     dig = util.digest(log)
